@@ -121,6 +121,11 @@ int KSI_Signature_verifyWithPolicy(KSI_Signature *sig, const KSI_DataHash *docHs
 		context.docAggrLevel = rootLevel;
 	} else {
 		context = *verificationContext;
+		/* A document hash given explicitly may not be ignored. */
+		if (docHsh != NULL) {
+			context.documentHash = docHsh;
+			context.docAggrLevel = rootLevel;
+		}
 	}
 	context.signature = sig;
 
